@@ -244,3 +244,6 @@ Lemma guarded_loses :
   option_map r_4 (ostep_guarded Z Z Z Z Z.add 0%Z Z.add 0%Z Z.add 0%Z Z.add 0%Z (bw_cfg false true) st tr) = Some 10%Z /\
   option_map r_4 (ostep_guarded Z Z Z Z Z.add 0%Z Z.add 0%Z Z.add 0%Z Z.add 0%Z (bw_cfg true true) st tr) = Some 30%Z.
 Proof. repeat split. Qed.
+
+Lemma bw_cfg_head_safe oe ot : cfg_safe (bw_cfg_head oe ot) = true.
+Proof. unfold cfg_safe, bw_cfg_head. simpl. now rewrite orb_true_r. Qed.
